@@ -5,10 +5,12 @@ package main
 // that compared printed source text (brittle under renames and blind to a loop that no longer prints).
 
 import (
+	"fmt"
 	"go/ast"
 	"go/constant"
 	"go/token"
 	"go/types"
+	"strings"
 )
 
 // c18NodePerState: DrawGrammar creates a node for every state: an unconditional, unskipping loop over LR0Closure
@@ -973,4 +975,86 @@ func builderAppends(info *types.Info, es *ast.ExprStmt) (types.Object, []ast.Exp
 		}
 	}
 	return nil, nil, false
+}
+
+// c18EscapeChain — symbol names go into DOT record labels, where `<` opens a port name and `>` closes one: both must
+// arrive escaped, or Graphviz drops the node's label (items and reductions disappear from the picture).
+// EscapeDotGraph must therefore return its argument with BOTH replacements applied, each to the result of the other:
+// a chain ReplaceAll(ReplaceAll(in, a, \a), b, \b) in either order, or one strings.NewReplacer over both pairs.
+func c18EscapeChain(c *Ctx, r *Report, clause string) {
+	f := c.need(r, clause, "Utils", "", "EscapeDotGraph")
+	if f == nil {
+		return
+	}
+	info := f.Pkg.TypesInfo
+	key := f.Name + "/both-angle-brackets-escaped"
+	ps := paramObjs(info, f.Decl)
+	if len(ps) != 1 {
+		r.Undecided(clause, "R1 PROVENANCE", key, c.pos(f.Decl.Pos()), "expected one parameter (the text)")
+		return
+	}
+	pe := newPathEnum(info)
+	pe.rename[ps[0]] = "IN"
+	paths, err := pe.Enumerate(f.Decl.Body.List)
+	if err != nil || len(paths) == 0 {
+		r.Undecided(clause, "R1 PROVENANCE", key, c.pos(f.Decl.Pos()), "function body cannot be enumerated")
+		return
+	}
+	strOf := func(t *Term) (string, bool) {
+		if t != nil && t.Val != nil && t.Val.Kind() == constant.String {
+			return constant.StringVal(t.Val), true
+		}
+		return "", false
+	}
+	why := ""
+	for _, p := range paths {
+		if p.Kind != "return" || len(p.Vals) != 1 {
+			continue
+		}
+		pairs := map[string]string{}
+		t := p.Vals[0]
+		reachedIn := false
+		for k := 0; k < 8 && t != nil; k++ {
+			if t.String() == "IN" {
+				reachedIn = true
+				break
+			}
+			if t.Op != "call" {
+				break
+			}
+			switch {
+			case strings.HasSuffix(t.Name, "strings.ReplaceAll") && len(t.Args) == 3:
+				o, ok1 := strOf(t.Args[1])
+				n, ok2 := strOf(t.Args[2])
+				if ok1 && ok2 {
+					pairs[o] = n
+				}
+				t = t.Args[0]
+			case strings.HasSuffix(t.Name, "Replacer).Replace") && len(t.Args) == 2:
+				// (*strings.Replacer).Replace(strings.NewReplacer(o1, n1, o2, n2 …), IN)
+				nr := t.Args[0]
+				if nr.Op == "call" && strings.HasSuffix(nr.Name, "strings.NewReplacer") {
+					for i := 0; i+1 < len(nr.Args); i += 2 {
+						o, ok1 := strOf(nr.Args[i])
+						n, ok2 := strOf(nr.Args[i+1])
+						if ok1 && ok2 {
+							pairs[o] = n
+						}
+					}
+				}
+				t = t.Args[1]
+			default:
+				t = nil
+			}
+		}
+		switch {
+		case !reachedIn:
+			why = "the returned text is not the argument passed through a chain of replacements (" + p.Vals[0].String() + ")"
+		case pairs["<"] != "\\<" || pairs[">"] != "\\>":
+			why = fmt.Sprintf("the returned text has only the replacements %v applied to the argument — `<` → `\\<` and `>` → `\\>` must both be, each on the result of the other", pairs)
+		}
+	}
+	r.Check(why == "", clause, "R1 PROVENANCE", key, c.pos(f.Decl.Pos()),
+		"the text is returned with `<` and `>` both escaped (the second replacement works on the result of the first)",
+		"a symbol name reaches a DOT record label with an unescaped angle bracket: "+why+" — Graphviz then rejects the label and draws the state without its items and reductions")
 }
